@@ -3,7 +3,7 @@ def hx(s):
     b=s.encode()
     return b.hex() if b else '-'
 ID62='^[0-9A-Za-z]{22}$'
-KEYS=["name","kind","req","opt","desc","arr","ar","amin","amax","auniq","asf","r","fmt","min","max","emin","emax","dmin","dmax","minl","maxl","pat","sfmt","const","kf","pk","fk","tk","eopts","epre","in","nin","flat","lr","optpres"]
+KEYS=["name","kind","req","opt","desc","arr","ar","amin","amax","auniq","asf","r","fmt","min","max","emin","emax","dmin","dmax","minl","maxl","pat","sfmt","const","kf","pk","fk","tk","eopts","eodesc","edesc","epre","in","nin","flat","lr","optpres"]
 def spec(name,kind,**kw):
     d={k:'~' for k in KEYS}
     d.update(name=hx(name),kind=kind,req='0',opt='0',arr='0',ar='0',r='0',flat='0',optpres='1')
@@ -63,6 +63,7 @@ roots=[
  ('regression: entity object with any-membership', root(desc=hx('the foo'),ent=hx('Thing'),part='2',anym=hx('alpha')+','+hx('second')), [spec('fa','str',req='1'), spec('fb','bool',arr='m',ar='1',amin='1')]),
  ('regression: entity without part, field keys of an entity object', root(ent=hx('Thing'),barent=hx('Widget')), [spec('keys','obj')]),
  ('regression (seeded C04-m3): non-canonical names on array / map / single / enum properties', root(), [spec('htmlURLs','str',arr='1'), spec('labelsByID','str',arr='m'), spec('x2y','int',fmt='i32'), spec('URL','enum',eopts=hx('ALPHA'))]),
+ ('regression (seeded C04-m6): explicit UNSPECIFIED with a description, descriptions on some options, enum description', root(), [spec('fa','enum',eopts=hx('UNSPECIFIED')+','+hx('ALPHA')+','+hx('BETA'),eodesc=hx('zero desc')+',-,'+hx('bee'),edesc=hx('the enum')), spec('fb','enum',eopts=hx('ALPHA')+','+hx('E_FB_BETA'),eodesc=hx('ay')+','+hx('line one\nline two'))]),
  ('regression: oneof root', root(kind='oneof',desc=hx('a oneof')), [spec('fa','obj',desc=hx('an option')), spec('fb','int',fmt='i32',r='1',min='3'), spec('fc','enum',eopts=hx('ALPHA'))]),
 ]
 which=sys.argv[1]
